@@ -56,7 +56,10 @@ class CellWorld:
         self.extra[name] = {"data": SymList(data), "n_missing": 0, "metadata": NUM_META}
         return M
 
-    def response(self, result_extra=None):
+    def response(self, result_extra=None, assume_weighted=True):
+        if assume_weighted and self.weighted and self.eng.symbolic:
+            first = tuple(0 for _ in self.shape)
+            self.eng.assume(Q.lift(self.W[first]) != self.U[first], note="the first weighted wire cell differs from its unweighted count (cube is weighted)")
         dims = []
         for v in self.vars:
             dims.extend(v.dims())
